@@ -1,5 +1,627 @@
-//! impl -> spec drivers (filled in below).
+//! impl -> spec: exercise the real library on domains TLC cannot enumerate and record one
+//! ndjson event per public call (arguments, result, projected state).  The events are judged
+//! by TLC with the trace specifications in /verif/spec/trace.
+//!
+//!   drive <driver> --seed N --n N --out FILE [--corpus FILE]...
+//!
+//! drivers: garbage, corpus, scalars, qual-ops, checksum-ops, builder-ops, big
+
+use std::io::Write;
+use std::panic::{catch_unwind, AssertUnwindSafe};
+use std::str::FromStr;
+use std::sync::atomic::Ordering;
+
+use purl::{GenericPurl, GenericPurlBuilder, PurlShape};
+use serde_json::{json, Value};
+
+use crate::proj::*;
+use crate::replay::{self, Ctx, Inst};
+
+fn arg_value(args: &[String], name: &str) -> Option<String> {
+    args.iter().position(|a| a == name).and_then(|i| args.get(i + 1).cloned())
+}
+
+fn arg_values(args: &[String], name: &str) -> Vec<String> {
+    args.iter().enumerate().filter(|(_, a)| *a == name).filter_map(|(i, _)| args.get(i + 1).cloned()).collect()
+}
+
+/// char::to_lowercase of every non-ASCII character that occurs in the strings (raw or behind
+/// percent-escapes) and is changed by it: the table the specification takes as an input.
+pub fn lc_table(strings: &[&str]) -> Value {
+    let mut seen = std::collections::BTreeSet::new();
+    for s in strings {
+        for c in s.chars() {
+            seen.insert(c);
+        }
+        let decoded: Vec<u8> = percent_decode(s.as_bytes());
+        for c in String::from_utf8_lossy(&decoded).chars() {
+            seen.insert(c);
+        }
+    }
+    let mut out = Vec::new();
+    for c in seen {
+        if !c.is_ascii() {
+            let lower: Vec<char> = c.to_lowercase().collect();
+            if lower != [c] {
+                out.push(json!([c as u32, lower.iter().map(|x| *x as u32).collect::<Vec<u32>>()]));
+            }
+        }
+    }
+    Value::Array(out)
+}
+
+fn hexval(b: u8) -> Option<u8> {
+    match b {
+        b'0'..=b'9' => Some(b - b'0'),
+        b'a'..=b'f' => Some(b - b'a' + 10),
+        b'A'..=b'F' => Some(b - b'A' + 10),
+        _ => None,
+    }
+}
+
+fn percent_decode(b: &[u8]) -> Vec<u8> {
+    let mut out = Vec::with_capacity(b.len());
+    let mut i = 0;
+    while i < b.len() {
+        if b[i] == b'%' && i + 2 < b.len() {
+            if let (Some(h), Some(l)) = (hexval(b[i + 1]), hexval(b[i + 2])) {
+                out.push(h * 16 + l);
+                i += 3;
+                continue;
+            }
+        }
+        out.push(b[i]);
+        i += 1;
+    }
+    out
+}
+
+fn ps<'a>(rng: &mut Rng, xs: &[&'a str]) -> &'a str {
+    xs[rng.below(xs.len())]
+}
+
+struct Sink {
+    out: std::io::BufWriter<std::fs::File>,
+    n: u64,
+    ctx: Ctx,
+    samples: Vec<Value>,
+}
+
+impl Sink {
+    fn emit(&mut self, ev: Value) {
+        if self.samples.len() < 3 && ev["ev"] != json!("reset") {
+            self.samples.push(ev.clone());
+        }
+        writeln!(self.out, "{}", ev).expect("write event");
+        self.n += 1;
+        crate::PROGRESS.store(self.n, Ordering::Relaxed);
+    }
+}
+
+fn parse_event<T: Inst>(sink: &mut Sink, sh: &str, inst: &str, s: &str)
+where
+    <T as PurlShape>::Error: ErrName + From<<T as FromStr>::Err>,
+{
+    let (obs, p) = replay::parse_outcome::<T>(s);
+    // universal properties are observed on the live value (C01 fixpoint, C10 rebuild, C04 coherence)
+    sink.ctx.case = json!({"s": cps(s)});
+    if let Some(p) = &p {
+        let known = obs["v"].clone();
+        replay::universal(&mut sink.ctx, inst, p, &obs, &[&known], "parse");
+    }
+    sink.emit(json!({"ev": "parse", "sh": sh, "inst": inst, "s": cps(s), "out": obs, "lc": lc_table(&[s])}));
+}
+
+fn parse_all(sink: &mut Sink, s: &str) {
+    parse_event::<String>(sink, "generic", "String", s);
+    #[cfg(feature = "pt")]
+    parse_event::<purl::PackageType>(sink, "typed", "Purl", s);
+}
+
+// --------------------------------------------------------------------------- string generators
+
+const SEP_HEAVY: &[&str] = &[
+    "/", "/", "@", "?", "#", "=", "&", "%", ":", ".", "..", "+", "-", "_", " ", "a", "b", "k", "T", "Z", "1", "0",
+    "%2F", "%2f", "%40", "%3F", "%23", "%26", "%3D", "%25", "%2E", "%2e", "%20", "%00", "%41", "%C3%A9", "%c3%a9", "%80", "%C3",
+    "%ED%A0%80", "%F4%90%80%80", "%C0%80", "%E2%82", "é", "Æ", "ǅ", "Σ", "ß", "\u{212A}", "\u{130}", "日", "\u{1F600}", "\u{0}", "\t", "\"", "<", ">", "`", "{", "}", "|", "\\", "^",
+    "pkg:", "npm", "maven", "pypi", "nuget", "golang", "cargo", "gem", "checksum", "sha1:", "00", "aB", ",", "repository_url",
+];
+
+fn garbage(rng: &mut Rng) -> String {
+    let mut s = String::new();
+    if rng.chance(8, 10) {
+        s.push_str("pkg:");
+        if rng.chance(1, 6) {
+            for _ in 0..rng.below(3) {
+                s.push('/');
+            }
+        }
+        if rng.chance(7, 10) {
+            s.push_str(ps(rng, &["t", "npm", "maven", "pypi", "NuGet", "golang", "cargo", "gem", "T+1", "a.b-c", "1x", "t%74"]));
+            s.push('/');
+        }
+    } else if rng.chance(1, 2) {
+        s.push_str(ps(rng, &["PKG:", "pkg", "http://", "pkg;", " pkg:", "pkg:pkg:"]));
+    }
+    for _ in 0..rng.below(14) {
+        s.push_str(ps(rng, SEP_HEAVY));
+    }
+    s
+}
+
+const LOOKALIKES: &[(char, char)] = &[('s', '\u{17F}'), ('k', '\u{212A}'), ('K', '\u{212A}'), ('i', '\u{131}'), ('I', '\u{130}'), ('a', '\u{FF41}'), ('A', '\u{391}'), ('e', '\u{435}')];
+
+fn mutate(rng: &mut Rng, s: &str) -> String {
+    let mut chars: Vec<char> = s.chars().collect();
+    let n = 1 + rng.below(3);
+    for _ in 0..n {
+        let len = chars.len();
+        match rng.below(9) {
+            0 if len > 0 => {
+                chars.remove(rng.below(len));
+            },
+            1 => {
+                let t: Vec<char> = ps(rng, SEP_HEAVY).chars().collect();
+                let at = rng.below(len + 1);
+                for (i, c) in t.into_iter().enumerate() {
+                    chars.insert(at + i, c);
+                }
+            },
+            2 if len > 1 => {
+                let i = rng.below(len - 1);
+                chars.swap(i, i + 1);
+            },
+            3 if len > 0 => {
+                // escape toggle: one character -> %XX (random hex case)
+                let i = rng.below(len);
+                let c = chars.remove(i);
+                let mut buf = [0u8; 4];
+                let lower = rng.chance(1, 2);
+                let mut at = i;
+                for b in c.encode_utf8(&mut buf).bytes() {
+                    let e = if lower { format!("%{:02x}", b) } else { format!("%{:02X}", b) };
+                    for ch in e.chars() {
+                        chars.insert(at, ch);
+                        at += 1;
+                    }
+                }
+            },
+            4 if len > 0 => {
+                let i = rng.below(len);
+                let c = chars[i];
+                chars[i] = if c.is_ascii_lowercase() { c.to_ascii_uppercase() } else { c.to_ascii_lowercase() };
+            },
+            5 if len > 0 => {
+                // look-alike substitution
+                let idx: Vec<usize> = (0..len).filter(|i| LOOKALIKES.iter().any(|(a, _)| *a == chars[*i])).collect();
+                if !idx.is_empty() {
+                    let i = *rng.pick(&idx);
+                    let subs: Vec<char> = LOOKALIKES.iter().filter(|(a, _)| *a == chars[i]).map(|(_, b)| *b).collect();
+                    chars[i] = *rng.pick(&subs);
+                }
+            },
+            6 if len > 0 => {
+                // duplicate a separator-delimited piece
+                let i = rng.below(len);
+                let c = chars[i];
+                chars.insert(i, c);
+            },
+            7 => {
+                let extra = ps(rng, &["?k=v", "&K=w", "#s/./t", "@2", "/x/", "?checksum=sha1:00ff,MD5:AB", "&checksum=zz", "%"]);
+                let at = rng.below(len + 1);
+                for (i, c) in extra.chars().enumerate() {
+                    chars.insert(at + i, c);
+                }
+            },
+            _ => {},
+        }
+    }
+    chars.into_iter().collect()
+}
+
+const EXTRA_SEEDS: &[&str] = &[
+    "pkg:type/name?checksum=sha1:ad9503c3e994a4f611a4892f2e67ac82df727086,sha256:aabbccdd",
+    "pkg:npm/@angular/cli@1.0.0?k=v#src/main",
+    "pkg:pypi/Django_.-package@1.0",
+    "pkg:nuget/Newtonsoft.Json@13.0.1?repository_url=https://example.com/a&b=c",
+    "pkg:maven/org.apache/commons:io@1?type=jar&classifier=sources",
+    "pkg:golang/github.com/a/b/c@v1.2.3#cmd/tool",
+    "pkg:t/ns/n@1?k=%26%3D%23&checksum=SHA1:00FF,md5:ab#a/%2e%2e%2Fb",
+];
+
+fn load_corpus(paths: &[String]) -> Vec<String> {
+    let mut out: Vec<String> = EXTRA_SEEDS.iter().map(|s| s.to_string()).collect();
+    for p in paths {
+        if let Ok(text) = std::fs::read_to_string(p) {
+            if let Ok(Value::Array(items)) = serde_json::from_str::<Value>(&text) {
+                for it in items {
+                    if let Some(s) = it["purl"].as_str() {
+                        out.push(s.to_owned());
+                    }
+                }
+            }
+        }
+    }
+    out
+}
+
+// --------------------------------------------------------------------------- drivers
+
+fn drive_garbage(sink: &mut Sink, rng: &mut Rng, n: usize) {
+    for _ in 0..n {
+        let s = garbage(rng);
+        parse_all(sink, &s);
+    }
+}
+
+fn drive_corpus(sink: &mut Sink, rng: &mut Rng, n: usize, corpus: &[String]) {
+    for s in corpus {
+        parse_all(sink, s);
+    }
+    for _ in 0..n {
+        let base = rng.pick(corpus).clone();
+        let s = mutate(rng, &base);
+        parse_all(sink, &s);
+    }
+}
+
+fn scalar(i: u32) -> Option<char> {
+    char::from_u32(i)
+}
+
+fn drive_scalars(sink: &mut Sink, rng: &mut Rng, n: usize) {
+    // every scalar value if n covers them, otherwise boundaries + a seeded sample
+    let all: Box<dyn Iterator<Item = u32>> = if n >= 0x110000 {
+        Box::new(0u32..0x110000)
+    } else {
+        let mut v: Vec<u32> = vec![0, 9, 0x1F, 0x20, 0x25, 0x2F, 0x7F, 0x80, 0xC6, 0xDF, 0x130, 0x131, 0x17F, 0x1C5, 0x3A3, 0x7FF, 0x800, 0x212A, 0x24B6,
+                                   0xD7FF, 0xE000, 0xFF21, 0xFFFD, 0xFFFF, 0x10000, 0x10400, 0x1E900, 0x10FFFF];
+        for _ in 0..n.saturating_sub(v.len()) {
+            v.push((rng.next() % 0x110000) as u32);
+        }
+        Box::new(v.into_iter())
+    };
+    for i in all {
+        let Some(c) = scalar(i) else { continue };
+        let mut esc = String::new();
+        let mut buf = [0u8; 4];
+        for b in c.encode_utf8(&mut buf).bytes() {
+            esc.push_str(&format!("%{:02X}", b));
+        }
+        #[cfg(feature = "pt")]
+        {
+            // nuget: escaped, next to an ASCII capital; pypi: raw, next to a separator run
+            let s1 = format!("pkg:nuget/A{}", esc);
+            parse_event::<purl::PackageType>(sink, "typed", "Purl", &s1);
+            let s2 = format!("pkg:pypi/{}_.b", c);
+            parse_event::<purl::PackageType>(sink, "typed", "Purl", &s2);
+        }
+        // generic: the character raw in the name, behind a namespace
+        let s3 = format!("pkg:t/n/x{}", c);
+        parse_event::<String>(sink, "generic", "String", &s3);
+    }
+}
+
+const QKEYS: &[&str] = &[
+    "k", "K", "ka", "k_", "K_", "kb", "k1", "KA", "a.b", "A.B", "a-b", "z", "Z", "zz", "z_", "checksum", "CHECKSUM", "repository_url", "Repository_Url",
+    "", "!", "a b", "é", "\u{212A}", "k\u{17F}", "a=b", "a&b", "%6B", "k ", " k",
+];
+const QVALS: &[&str] = &["", "x", "y", "a&b=c", "%41", "é", " ", "sha1:00ff", "B:0A,a:fF", "zz", "a:0", "v#s", "\u{0}"];
+
+fn random_qop(rng: &mut Rng) -> Value {
+    let k = cps(ps(rng, QKEYS));
+    let v = cps(ps(rng, QVALS));
+    match rng.below(30) {
+        0..=5 => json!(["insert", k, v]),
+        6 => json!(["get", k]),
+        7 => json!(["contains_key", k]),
+        8..=9 => json!(["remove", k]),
+        10 => json!(["get_mut_set", k, v]),
+        11 => json!(["index", k]),
+        12 => json!(["index_mut_set", k, v]),
+        13 => json!(["entry_classify", k]),
+        14 => json!(["entry_or_insert", k, v]),
+        15 => json!(["entry_or_insert_with", k, v]),
+        16 => json!(["entry_and_modify_or_insert", k, cps("m"), v]),
+        17 => json!(["occ_insert", k, v]),
+        18 => json!(["occ_remove", k]),
+        19 => json!(["occ_remove_entry", k]),
+        20 => json!(["vac_insert", k, v]),
+        21 => json!(["retain_nonempty"]),
+        22 => {
+            // judged for ASCII probes only
+            let ks: Vec<&str> = QKEYS.iter().copied().filter(|k| k.is_ascii()).collect();
+            json!(["retain_key_ne", cps(ps(rng, &ks))])
+        },
+        23 => json!(["retain_mut_set", v]),
+        24 => json!(["iter_mut_set", v]),
+        25 => json!(["insert_typed_repo", v]),
+        26 => json!(["remove_typed_repo"]),
+        27 => json!(["get_typed_repo"]),
+        28 => json!(["try_get_typed_checksum"]),
+        _ => {
+            if rng.chance(1, 10) {
+                json!(["clear"])
+            } else {
+                let n = rng.below(4);
+                let pairs: Vec<Value> = (0..n).map(|_| json!([cps(ps(rng, QKEYS)), cps(ps(rng, QVALS))])).collect();
+                json!(["try_from_iter", pairs])
+            }
+        },
+    }
+}
+
+fn drive_qual_ops(sink: &mut Sink, rng: &mut Rng, n: usize) {
+    let mut q = purl::Qualifiers::default();
+    let mut since = 0;
+    sink.emit(json!({"ev": "reset"}));
+    for _ in 0..n {
+        if since >= 60 {
+            q = purl::Qualifiers::default();
+            since = 0;
+            sink.emit(json!({"ev": "reset"}));
+        }
+        since += 1;
+        let op = random_qop(rng);
+        let res = match catch_unwind(AssertUnwindSafe(|| replay::apply_qop(&mut q, &op))) {
+            Ok(v) => v,
+            Err(_) => json!({"panic": true}),
+        };
+        let ex = quals_extras(&q);
+        sink.emit(json!({"ev": "q", "op": op, "res": res, "post": quals_json(&q), "coherent": ex}));
+    }
+}
+
+const CALGS: &[&str] = &["sha1", "SHA1", "Sha1", "md5", "MD5", "a:b", "A:B", "", "É", "é", "ǅ", "ǆ", "Σ", "x y", "\u{17F}ha1", "\u{212A}"];
+const CHEX: &[&str] = &["", "00", "0A", "0a", "ff", "FF", "xx", "0", "00ff00", "é"];
+
+fn drive_checksum_ops(sink: &mut Sink, rng: &mut Rng, n: usize) {
+    use purl::qualifiers::well_known::Checksum;
+    let mut ck: Checksum<'static> = Checksum::default();
+    let mut since = 0;
+    sink.emit(json!({"ev": "reset"}));
+    for _ in 0..n {
+        if since >= 40 {
+            ck = Checksum::default();
+            since = 0;
+            sink.emit(json!({"ev": "reset"}));
+        }
+        since += 1;
+        let a = cps(ps(rng, CALGS));
+        let op = match rng.below(12) {
+            0..=3 => json!(["insert_raw", a, cps(ps(rng, CHEX))]),
+            4 => {
+                let len = rng.below(4);
+                let bytes: Vec<u8> = (0..len).map(|_| (rng.next() & 0xFF) as u8).collect();
+                json!(["insert_bytes", a, bytes])
+            },
+            5 => json!(["remove", a]),
+            6 => json!(["get_raw", a]),
+            7 => json!(["get_bytes", a]),
+            8 => json!(["entries"]),
+            9..=10 => json!(["to_text"]),
+            _ => {
+                let n = 1 + rng.below(3);
+                let text: Vec<String> = (0..n).map(|_| format!("{}:{}", ps(rng, CALGS), ps(rng, CHEX))).collect();
+                json!(["from_text", cps(&text.join(","))])
+            },
+        };
+        let order: Vec<String> = ck.algorithms().map(|s| s.to_owned()).collect();
+        let res = match catch_unwind(AssertUnwindSafe(|| replay::apply_ckop(&mut ck, &op))) {
+            Ok(v) => v,
+            Err(_) => json!({"panic": true}),
+        };
+        let mut post: Vec<(String, String)> = ck.iter().map(|(a, h)| (a.to_owned(), h.raw().to_owned())).collect();
+        post.sort();
+        let lc_src: Vec<&str> = CALGS.to_vec();
+        sink.emit(json!({"ev": "ck", "op": op, "res": res,
+                         "post": post.iter().map(|(a, h)| json!([cps(a), cps(h)])).collect::<Vec<_>>(),
+                         "order": order.iter().map(|s| cps(s)).collect::<Vec<_>>(), "lc": lc_table(&lc_src)}));
+    }
+}
+
+const BSTR: &[&str] = &["", "a", "A/b", "/", "//", "a//b", ".", "..", "a/./b", "n", "N_.-x", "é", "ǅÆ", "a b", "a%2Fb", "%", "%zz", "@", "a@b", "?", "a?b=c", "#", "a#b", "&", "=", "a&b=c", "+", "\u{0}", "\u{7f}", "\"<>`{}", "日本"];
+const BTYPES: &[&str] = &["t", "T", "npm", "Deb", "a.b+c-d", "1x", "", "!", "a,b", "é", "t ", "MAVEN"];
+
+fn random_bop(rng: &mut Rng) -> Value {
+    let s = cps(ps(rng, BSTR));
+    match rng.below(16) {
+        0 => json!(["with_namespace", s]),
+        1 => json!(["without_namespace"]),
+        2 => json!(["with_name", s]),
+        3 => json!(["with_version", s]),
+        4 => json!(["without_version"]),
+        5 => json!(["with_subpath", s]),
+        6 => json!(["without_subpath"]),
+        7..=9 => json!(["with_qualifier", cps(ps(rng, QKEYS)), cps(ps(rng, QVALS))]),
+        10 => json!(["with_qualifier", cps(ps(rng, QKEYS)), s]),
+        11 => json!(["without_qualifier", cps(ps(rng, QKEYS))]),
+        12 => json!(["with_typed_repo", s]),
+        13 => json!(["without_typed_repo"]),
+        14 => {
+            let n = rng.below(3);
+            let es: Vec<Value> = (0..n).map(|_| json!([cps(ps(rng, CALGS)), cps(ps(rng, CHEX))])).collect();
+            json!(["try_with_typed_checksum", es])
+        },
+        _ => {
+            if rng.chance(1, 3) {
+                json!(["without_qualifiers"])
+            } else {
+                json!(["without_typed_checksum"])
+            }
+        },
+    }
+}
+
+fn bseq_run<T>(ops: &[Value]) -> (Value, Option<String>)
+where
+    T: replay::StShape + Clone,
+    <T as PurlShape>::Error: ErrName + From<purl::ParseError>,
+{
+    let Some(t) = T::from_st(&from_cps(&ops[0][1])) else { return (Value::Null, None) };
+    let name = from_cps(&ops[0][2]);
+    let r = catch_unwind(AssertUnwindSafe(|| -> Result<GenericPurl<T>, <T as PurlShape>::Error> {
+        let mut b = GenericPurlBuilder::new(t, name);
+        for op in &ops[1..] {
+            b = replay::apply_op(b, op)?;
+        }
+        b.build()
+    }));
+    let canon = match &r {
+        Ok(Ok(p)) => display(p),
+        _ => None,
+    };
+    (outcome::<T, <T as PurlShape>::Error>(r), canon)
+}
+
+fn drive_builder_ops(sink: &mut Sink, rng: &mut Rng, n: usize) {
+    for i in 0..n {
+        let typed = cfg!(feature = "pt") && i % 3 == 0;
+        let t = if typed { ps(rng, &["maven", "pypi", "nuget", "npm", "golang", "cargo", "gem"]) } else { ps(rng, BTYPES) };
+        let mut ops = vec![json!(["new", cps(t), cps(ps(rng, BSTR))])];
+        for _ in 0..rng.below(7) {
+            ops.push(random_bop(rng));
+        }
+        let mut strs: Vec<String> = Vec::new();
+        for op in &ops {
+            for a in op.as_array().unwrap().iter().skip(1) {
+                if a.as_array().map(|x| x.iter().all(|y| y.is_u64())).unwrap_or(false) {
+                    strs.push(from_cps(a));
+                } else if let Some(es) = a.as_array() {
+                    for e in es {
+                        strs.push(from_cps(&e[0]));
+                    }
+                }
+            }
+        }
+        let refs: Vec<&str> = strs.iter().map(|s| s.as_str()).collect();
+        let (out, canon, back) = if typed {
+            #[cfg(feature = "pt")]
+            {
+                let (o, c) = bseq_run::<purl::PackageType>(&ops);
+                let back = c.as_ref().map(|c| replay::parse_outcome::<purl::PackageType>(c).0);
+                (o, c, back)
+            }
+            #[cfg(not(feature = "pt"))]
+            {
+                (Value::Null, None, None)
+            }
+        } else {
+            let (o, c) = bseq_run::<String>(&ops);
+            let back = c.as_ref().map(|c| replay::parse_outcome::<String>(c).0);
+            (o, c, back)
+        };
+        let _ = canon;
+        sink.emit(json!({"ev": "bseq", "sh": if typed { "typed" } else { "generic" }, "ops": ops, "out": out,
+                         "back": back.unwrap_or(json!({"none": true})), "lc": lc_table(&refs)}));
+    }
+}
+
+fn drive_big(sink: &mut Sink, rng: &mut Rng, _n: usize) {
+    let sizes = [64 * 1024usize, 256 * 1024, 1024 * 1024];
+    let fill = |unit: &str, size: usize| -> String { unit.repeat(size / unit.len().max(1) + 1).chars().take(size).collect() };
+    for size in sizes {
+        let mut inputs: Vec<(String, String)> = vec![
+            ("long name".into(), format!("pkg:t/{}", fill("a", size))),
+            ("long escaped name".into(), format!("pkg:t/{}", fill("%41", size))),
+            ("many namespace segments".into(), format!("pkg:t/{}n", fill("a/", size))),
+            ("many empty segments".into(), format!("pkg:t/{}n", fill("/", size))),
+            ("many subpath dot segments".into(), format!("pkg:t/n#{}", fill("../", size))),
+            ("many qualifiers".into(), {
+                let mut s = String::from("pkg:t/n?");
+                let mut i = 0;
+                while s.len() < size {
+                    s.push_str(&format!("k{}=v&", i));
+                    i += 1;
+                }
+                s.push_str("z=1");
+                s
+            }),
+            ("duplicate qualifier far apart".into(), {
+                let mut s = String::from("pkg:t/n?dup=1&");
+                let mut i = 0;
+                while s.len() < size {
+                    s.push_str(&format!("k{}=v&", i));
+                    i += 1;
+                }
+                s.push_str("DUP=2");
+                s
+            }),
+            ("long checksum".into(), {
+                let mut s = String::from("pkg:t/n?checksum=");
+                let mut i = 0;
+                while s.len() < size {
+                    s.push_str(&format!("alg{}:00ff,", i));
+                    i += 1;
+                }
+                s.push_str("z:00");
+                s
+            }),
+            ("many percent signs".into(), format!("pkg:t/{}", fill("%", size))),
+            ("many at signs".into(), format!("pkg:t/{}", fill("@", size))),
+            ("many question marks".into(), format!("pkg:t/n{}", fill("?", size))),
+            ("many hashes".into(), format!("pkg:t/n{}", fill("#", size))),
+            ("long pypi name".into(), format!("pkg:pypi/{}", fill("A_.-", size))),
+            ("long nuget non-ascii name".into(), format!("pkg:nuget/{}", fill("aÆ", size / 2))),
+            ("invalid utf8 at the end".into(), format!("pkg:t/{}%80", fill("a", size))),
+        ];
+        let mut g = String::new();
+        while g.len() < size {
+            g.push_str(&garbage(rng));
+        }
+        inputs.push(("concatenated garbage".into(), g));
+        for (what, s) in inputs {
+            let t0 = std::time::Instant::now();
+            let kind = |r: &Value| if r.get("panic").is_some() { "panic" } else if r["ok"] == json!(true) { "ok" } else { "err" };
+            let (g, _) = replay::parse_outcome::<String>(&s);
+            sink.emit(json!({"ev": "opaque", "what": what, "inst": "String", "len": s.len(), "kind": kind(&g), "ms": t0.elapsed().as_millis() as u64}));
+            #[cfg(feature = "pt")]
+            {
+                let t0 = std::time::Instant::now();
+                let (t, _) = replay::parse_outcome::<purl::PackageType>(&s);
+                sink.emit(json!({"ev": "opaque", "what": what, "inst": "Purl", "len": s.len(), "kind": kind(&t), "ms": t0.elapsed().as_millis() as u64}));
+            }
+        }
+    }
+}
+
 pub fn main(args: &[String]) {
-    eprintln!("drive: not yet implemented {:?}", args);
-    std::process::exit(2);
+    let Some(driver) = args.first() else {
+        eprintln!("drive: missing driver name");
+        std::process::exit(2)
+    };
+    let seed: u64 = arg_value(args, "--seed").and_then(|s| s.parse().ok()).unwrap_or(1);
+    let n: usize = arg_value(args, "--n").and_then(|s| s.parse().ok()).unwrap_or(1000);
+    let Some(out) = arg_value(args, "--out") else {
+        eprintln!("drive: missing --out");
+        std::process::exit(2)
+    };
+    let file = std::fs::File::create(&out).expect("create events file");
+    let mut sink = Sink { out: std::io::BufWriter::new(file), n: 0, ctx: Ctx::new(), samples: Vec::new() };
+    let mut rng = Rng::new(seed);
+    // watchdog: a call that does not return within the limit is a C06 violation
+    let current = std::sync::Arc::new(std::sync::Mutex::new(String::new()));
+    crate::start_watchdog(std::time::Duration::from_secs(if driver == "big" { 60 } else { 10 }), current);
+    match driver.as_str() {
+        "garbage" => drive_garbage(&mut sink, &mut rng, n),
+        "corpus" => {
+            let corpus = load_corpus(&arg_values(args, "--corpus"));
+            drive_corpus(&mut sink, &mut rng, n, &corpus)
+        },
+        "scalars" => drive_scalars(&mut sink, &mut rng, n),
+        "qual-ops" => drive_qual_ops(&mut sink, &mut rng, n),
+        "checksum-ops" => drive_checksum_ops(&mut sink, &mut rng, n),
+        "builder-ops" => drive_builder_ops(&mut sink, &mut rng, n),
+        "big" => drive_big(&mut sink, &mut rng, n),
+        other => {
+            eprintln!("unknown driver {other}");
+            std::process::exit(2);
+        },
+    }
+    sink.out.flush().expect("flush events");
+    crate::PROGRESS.store(u64::MAX, Ordering::Relaxed);
+    let mut sum = sink.ctx.summary();
+    sum["events"] = json!(sink.n);
+    sum["samples"] = json!(sink.samples);
+    println!("{}", sum);
 }
